@@ -7,7 +7,7 @@ pub const CONTEXTS: [&str; 16] = [
     "when", "unless", "apply",
 ];
 pub const SHAPES: [&str; 6] = ["self", "mutual-2", "mutual-3", "through-parameter", "variadic", "closure-returned"];
-pub const SHAPES_ALL: [&str; 7] = ["self", "mutual-2", "mutual-3", "through-parameter", "variadic", "closure-returned", "internal-definition"];
+pub const SHAPES_ALL: [&str; 8] = ["self", "mutual-2", "mutual-3", "through-parameter", "variadic", "closure-returned", "internal-definition", "fresh-closure-per-iteration"];
 
 /// put `x` (an expression in tail position) into the tail position of the given context
 pub fn wrap(ctx: &str, x: &str) -> String {
@@ -76,6 +76,14 @@ pub fn program(shape: &str, ctxs: &[&str], n: u32) -> Vec<String> {
             forms.push("(define the-loop (make-loop))".to_string());
             forms.push(format!("(the-loop the-loop {} 1)", n));
         }
+        "fresh-closure-per-iteration" => {
+            // every iteration tail-calls a new closure of the same lambda with a different captured binding
+            forms.push(format!(
+                "(define (make-step k) (lambda (i acc) (probe i) (if (= i 0) (+ (* acc 10000) k) {})))",
+                w("((make-step (+ k 1)) (- i 1) (step acc i))")
+            ));
+            forms.push(format!("((make-step 0) {} 1)", n));
+        }
         "internal-definition" => {
             forms.push(format!("(define (run n) (define (iter i acc) (probe i) (if (= i 0) acc {})) (iter n 1))", w("(iter (- i 1) (step acc i))")));
             forms.push(format!("(run {})", n));
@@ -134,14 +142,15 @@ pub fn judge(shape: &str, ctxs: &[&str], n: u32) -> Report {
     let m = measure(forms, n);
     let ctx_name = ctxs.join("+");
     let tag = if ctxs.contains(&"apply") { "tail-context:apply".to_string() } else { format!("{}:{}", shape, ctx_name) };
+    let expected = if shape == "fresh-closure-per-iteration" { closed_form(n) * 10000 + n as i32 } else { closed_form(n) };
     match &m.outcome {
-        Outcome::Value(SVal::Num(crate::sut::SNum::Int(v))) if *v == closed_form(n) => {}
+        Outcome::Value(SVal::Num(crate::sut::SNum::Int(v))) if *v == expected => {}
         Outcome::Panic { site, msg } => {
             rep.fail(sut::panic_sig(site, msg), "the loop panicked");
             return rep;
         }
         other => {
-            rep.fail(format!("loop-result-wrong:{}", tag), format!("expected {}, got {}", closed_form(n), other.show()));
+            rep.fail(format!("loop-result-wrong:{}", tag), format!("expected {}, got {}", expected, other.show()));
             return rep;
         }
     }
